@@ -221,3 +221,155 @@ def gen_dispatch(world):
 def generators(repo):
     gen_dispatch.repo = repo
     return [("Dispatch", gen_dispatch)]
+
+
+# ------------------------------------------------------------------------------------------------------------------
+# the frontend's request server: `FrontendReqHandler::handle_request` + `check_attached_files`
+# (vhost/src/vhost_user/frontend_req_handler.rs) -> lean/VhostModel/Gen/DispatchFe.lean
+REL_FE = "vhost/src/vhost_user/frontend_req_handler.rs"
+
+
+def fe_arm_sig(stmts, where):
+    sig = []
+    for s in stmts:
+        e = s.args[1] if s.op == "let" else s.args[0]
+        se = strip(e)
+        m = backend_call(e) if s.op in ("let", "stmt", "tail") else None
+        if m:
+            # the call must be the arm's value, mapped with `.map_err(Error::ReqHandlerError)`
+            if se.op != "mcall" or se.args[1] != "map_err":
+                raise Untranslatable(f"{where}: handler result is not mapped with map_err")
+            sig.append(f"call:{m}")
+            txt = repr(se)
+            if "files" in txt:
+                if "unwrap" not in txt or "'index'" not in txt and "index" not in txt:
+                    raise Untranslatable(f"{where}: files used in an unknown way")
+                sig.append("file:unwrap0")
+            return sig
+        if is_self_call(e, "check_msg_size"):
+            a = strip(se.args[4])
+            if a.op == "int" and a.args[0] == 0:
+                sig.append("size:zero")
+            else:
+                raise Untranslatable(f"{where}: unrecognised expected size")
+        elif is_self_call(e, "extract_msg_body"):
+            sig.append(f"body:{se.kw.get('turbofish')}")
+        else:
+            raise Untranslatable(f"{where}: unrecognised statement before the handler call: {s!r}"[:400])
+    raise Untranslatable(f"{where}: arm never invokes the handler")
+
+
+def gen_dispatch_fe(world):
+    path = os.path.join(gen_dispatch.repo, REL_FE)
+    items = scan_items(tokenize(open(path).read()), FEATURES)
+    bodies = {}
+    for it in items:
+        if it.kind == "impl":
+            trait, ty = impl_header(it)
+            if trait is None and ty == "FrontendReqHandler":
+                for name, attrs, params, ret, b in impl_fns(it, FEATURES):
+                    bodies[name] = b
+    for need in ("handle_request", "check_attached_files"):
+        if need not in bodies:
+            raise Untranslatable(f"{REL_FE}: fn {need} not found")
+    rty, variants = world.enums["BackendReq"]
+    codes = dict(variants)
+    # ---- dispatch arms
+    stmts = parse_block(bodies["handle_request"], f"{REL_FE}: handle_request")
+    mt = None
+    pre = []
+    post = []
+    for s in stmts:
+        e = s.args[1] if s.op == "let" else s.args[0]
+        if mt is None and e is not None and e.op == "match" and strip(e.args[0]).op == "mcall" and strip(e.args[0]).args[1] == "get_code":
+            mt = e
+            continue
+        (pre if mt is None else post).append(s)
+    if mt is None:
+        raise Untranslatable(f"{REL_FE}: dispatch match not found")
+    rows = []
+    default_err = None
+    for pat, guard, b in mt.args[1]:
+        m = re.match(r"Ok \( BackendReq :: (\w+) \)$", pat)
+        if not m:
+            if pat == "_" and guard is None:
+                default_err = err_name(b)
+                continue
+            raise Untranslatable(f"{REL_FE}: unrecognised arm pattern `{pat}`")
+        name = m.group(1)
+        if guard is not None or b.op != "block":
+            raise Untranslatable(f"{REL_FE}: arm {name} has a guard or is not a block")
+        rows.append((codes[name], name, fe_arm_sig(b.args, f"{REL_FE}: arm {name}")))
+    if default_err != "InvalidMessage":
+        raise Untranslatable(f"{REL_FE}: the default arm is not Err(Error::InvalidMessage)")
+    prelude = []
+    for s in pre:
+        txt = repr(strip(s.args[1] if s.op == "let" else s.args[0]))
+        for key in ("check_state", "recv_header", "check_attached_files", "recv_data"):
+            if key in txt:
+                prelude.append(key)
+    epilogue = []
+    for s in post:
+        e = strip(s.args[1] if s.op == "let" else s.args[0])
+        txt = repr(e)
+        if "send_ack_message" in txt:
+            epilogue.append("send_ack_message")
+        elif e is not None and e.op == "path" and e.args == ["res"]:
+            epilogue.append("res")
+        else:
+            raise Untranslatable(f"{REL_FE}: unrecognised statement after the dispatch: {s!r}"[:300])
+    # ---- attached-file policy
+    cs = parse_block(bodies["check_attached_files"], f"{REL_FE}: check_attached_files")
+    if len(cs) != 1 or strip(cs[0].args[0]).op != "match":
+        raise Untranslatable(f"{REL_FE}: check_attached_files is not a single match")
+    cm = strip(cs[0].args[0])
+    arms = cm.args[1]
+    if len(arms) != 3:
+        raise Untranslatable(f"{REL_FE}: check_attached_files has {len(arms)} arms")
+    (p0, g0, b0), (p1, g1, b1), (p2, g2, b2) = arms
+    m = re.match(r"Ok \( (.*) \)$", p0)
+    if not m or g0 is not None:
+        raise Untranslatable(f"{REL_FE}: check_attached_files: first arm `{p0}`")
+    file_codes = []
+    for alt in m.group(1).split("|"):
+        mm = re.match(r"\s*BackendReq :: (\w+)\s*$", alt)
+        if not mm:
+            raise Untranslatable(f"{REL_FE}: check_attached_files: alternative `{alt}`")
+        file_codes.append(codes[mm.group(1)])
+    inner = b0.args[-1].args[0] if b0.op == "block" else b0
+    inner = strip(inner)
+    if inner.op != "match" or len(inner.args[1]) != 2:
+        raise Untranslatable(f"{REL_FE}: check_attached_files: inner match")
+    (ip0, ig0, ib0), (ip1, ig1, ib1) = inner.args[1]
+    ok_single = (ip0.replace(" ", "") == "Some(files)" and ig0 is not None and ig0.op == "bin" and ig0.args[0] == "==" and
+                 strip(ig0.args[2]).op == "int" and strip(ig0.args[2]).args[0] == 1 and "len" in repr(ig0.args[1]) and
+                 ip1 == "_" and ig1 is None and err_name(ib1) == "InvalidMessage")
+    if not ok_single:
+        raise Untranslatable(f"{REL_FE}: check_attached_files: the single-file rule changed")
+    if not (p1 == "_" and g1 is not None and "is_some" in repr(g1) and err_name(b1) == "InvalidMessage" and p2 == "_" and g2 is None):
+        raise Untranslatable(f"{REL_FE}: check_attached_files: the no-file rule changed")
+
+    def lean_sig(x):
+        k, _, v = x.partition(":")
+        return {"body": f'.body "{v}"', "file": f'.file "{v}"', "call": f'.call "{v}"', "size": ".sizeZero"}[k]
+    out = [LEAN_HEADER, "import VhostModel.Base", "", "namespace Gen.DispatchFe", "open Base", "",
+           f"/-- guard calls of every arm of `FrontendReqHandler::handle_request` ({REL_FE}), in source order -/",
+           "def sigs : List (Nat × List Sig) := ["]
+    out.append(",\n".join("  /- %s -/ (%d, [%s])" % (n, c, ", ".join(lean_sig(x) for x in sg)) for c, n, sg in rows))
+    out.append("]")
+    out.append("")
+    out.append("/-- request codes for which `check_attached_files` demands exactly one file (every other code: none) -/")
+    out.append("def fileCodes : List Nat := [%s]" % ", ".join(str(c) for c in file_codes))
+    out.append("")
+    out.append("def prelude : List String := [%s]" % ", ".join('"%s"' % x for x in prelude))
+    out.append("def epilogue : List String := [%s]" % ", ".join('"%s"' % x for x in epilogue))
+    out.append("")
+    out.append("end Gen.DispatchFe")
+    return "\n".join(out) + "\n"
+
+
+_generators_be = generators
+
+
+def generators(repo):  # noqa: F811
+    return _generators_be(repo) + [("DispatchFe", gen_dispatch_fe)]
